@@ -18,8 +18,11 @@ EXTENDS PipeObs, Json
 CONSTANTS Callers,      \* set of caller numbers (1..9)
           MaxCalls,     \* calls per caller
           MaxTotal,     \* calls in total
-          Kinds,        \* subset of {"do", "multi", "cache", "sub"}
-          PushKinds,    \* subset of {"invalidate", "flush", "message", "unsubscribe"}: pushes the environment may insert
+          Kinds,        \* subset of {"do", "multi", "cache", "sub", "subown"} (sub: Receive of an own channel and the shared
+                        \* channel "sh"; subown: Receive of an own channel only)
+          PushKinds,    \* subset of {"invalidate", "flush", "message", "unsubscribe", "unsubown", "msgown"}: pushes the environment
+                        \* may insert (message / unsubscribe: on "sh"; msgown / unsubown: on the own channel of one caller's
+                        \* current Receive)
           MaxPush, MaxCancel, MaxCut,
           UseHold,      \* the driver holds replies and releases them one by one
           InvalOn,      \* client created with OnInvalidations
@@ -34,7 +37,12 @@ CONSTANTS Callers,      \* set of caller numbers (1..9)
           BugNoLossNil,       \* the invalidation callback is not called with nil when the connection is lost
           BugSkipInval,       \* invalidation pushes for flushes are not handed to the callback
           Dedicated,          \* caller 1 works through a dedicated session with SetOnInvalidations / OnMessage hooks
-          BugNoTrackingOff    \* releasing the dedicated session does not send CLIENT TRACKING OFF
+          BugNoTrackingOff,   \* releasing the dedicated session does not send CLIENT TRACKING OFF
+          CacheChoices,       \* {TRUE}: client-side cache enabled; {TRUE, FALSE}: also runs with DisableCache (tracking is then
+                              \* turned on by hand, the invalidation pushes and the callbacks are the same)
+          BugLossNilNeedsCache, \* the nil at connection loss is only delivered when the connection owns a cache
+          BugUnsubWrongSub    \* an unsubscribe push ends the youngest listening Receive instead of the subscribers of its channel
+                              \* (what a re-used subscription id does in pubsub.go)
 
 VARIABLE mc   \* abstract client / server / environment bookkeeping (not part of the observable state)
 svars == <<vars, mc>>
@@ -46,6 +54,7 @@ CmdsOf(c, kind) ==
   CASE kind = "do"    -> <<W(CmdId(c, 1), <<"VTAG", CmdId(c, 1)>>)>>
     [] kind = "multi" -> <<W(CmdId(c, 1), <<"VTAG", CmdId(c, 1)>>), W(CmdId(c, 2), <<"VTAG", CmdId(c, 2)>>)>>
     [] kind = "cache" -> <<W(CmdId(c, 1), <<"GET", "k:" \o CmdId(c, 1)>>)>>
+    [] kind = "subown" -> <<W(CmdId(c, 1), <<"SUBSCRIBE", "u:" \o CmdId(c, 1)>>)>>
     [] OTHER          -> <<W(CmdId(c, 1), <<"SUBSCRIBE", "u:" \o CmdId(c, 1), "sh">>)>>
 
 SInit ==
@@ -53,7 +62,9 @@ SInit ==
   /\ conns = <<>>
   /\ glob = [closing |-> FALSE, quiesced |-> FALSE, bad |-> {}, invalOn |-> FALSE]
   /\ last = Touch("Init", {}, {}, FALSE)
-  /\ mc = [ncalls |-> [p \in Callers |-> 0],
+  /\ \E cacheOn \in CacheChoices :
+     mc = [cache |-> cacheOn,
+           ncalls |-> [p \in Callers |-> 0],
            cur  |-> [c |-> 0, j |-> 0],      \* batch the abstract writer is in the middle of
            wpos |-> <<>>,                    \* call -> position of its first command on the wire
            todo |-> <<>>,                    \* what the server still owes, in order: [t, p] / [t, kind, chan, val]
@@ -62,7 +73,7 @@ SInit ==
            reg  |-> {}, active |-> {}, ended |-> {},   \* Receive calls: registered / confirmed / ended by unsubscribe
            pend |-> <<>>,                    \* Receive call -> frames not yet handed to its callback
            ipend |-> <<>>,                   \* invalidation payloads not yet handed to the callback
-           ssub |-> FALSE,                   \* the server has the connection subscribed to "sh"
+           schans |-> {},                    \* channels the server has the connection subscribed to
            lossnil |-> FALSE,
            boot |-> 0,                       \* Start, SConn, Hold done
            sess |-> "none",                  \* dedicated session of caller 1: none / open / releasing / released
@@ -92,7 +103,7 @@ Serve ==
   /\ LET h == Head(mc.todo) IN
      /\ IF h.t = "rep" THEN SRep(K, ReplyValue(h.p).val, ReplyValue(h.p).elems)
                        ELSE SPush(K, h.kind, h.chan, h.val)
-     /\ mc' = [mc EXCEPT !.todo = Tail(@), !.ssub = IF h.t = "push" /\ h.kind = "subscribe" /\ h.chan = "sh" THEN TRUE ELSE @]
+     /\ mc' = [mc EXCEPT !.todo = Tail(@), !.schans = IF h.t = "push" /\ h.kind = "subscribe" THEN @ \cup {h.chan} ELSE @]
 
 (* ---- the abstract client: writer *)
 \* the next command the writer puts on the wire: continues the current batch, or starts the batch of any call that
@@ -140,7 +151,11 @@ Read ==
                 ELSE [val |-> fr.val, elems |-> <<>>, frame |-> f]
          subsOf == {c \in DOMAIN calls : IsSub(c) /\ Listening(c) /\ fr.chan \in SubChans(c)}
          deliverTo == IF BugSkipMsg /\ fr.val = "|sh|m2" THEN {c \in subsOf : Len(mc.pend[c]) + Len(calls[c].got) = 0} ELSE subsOf
-         endTo == IF BugUnsubFirstOnly /\ subsOf # {} THEN {CHOOSE c \in subsOf : \A d \in subsOf : c <= d} ELSE subsOf
+         listening == {c \in DOMAIN calls : IsSub(c) /\ Listening(c)}
+         endTo == IF BugUnsubFirstOnly /\ subsOf # {} THEN {CHOOSE c \in subsOf : \A d \in subsOf : c <= d}
+                  ELSE IF BugUnsubWrongSub /\ listening \cap DOMAIN mc.wpos # {}
+                       THEN LET ls == listening \cap DOMAIN mc.wpos IN {CHOOSE c \in ls : \A d \in ls : mc.wpos[c] >= mc.wpos[d]}
+                  ELSE subsOf
      IN mc' = [mc EXCEPT
           !.rd = f,
           !.slots = IF asReply THEN Append(@, rec) ELSE @,
@@ -157,9 +172,11 @@ Cb == \E c \in DOMAIN calls : /\ CbEn(c)
                               /\ RecvCb(c, conns[K].out[Head(mc.pend[c])].val)
                               /\ mc' = [mc EXCEPT !.pend[c] = Tail(@)]
 
-InvalEn == mc.ipend # <<>> \/ (Cut /\ InvalOn /\ ~mc.lossnil /\ ~BugNoLossNil)
+\* pipe._background at connection loss: one nil for the option callback and one for the session hook - with or without a cache
+LossNilOK == ~BugNoLossNil /\ (BugLossNilNeedsCache => mc.cache)
+InvalEn == mc.ipend # <<>> \/ (Cut /\ InvalOn /\ ~mc.lossnil /\ LossNilOK)
 Inval == \/ mc.ipend # <<>> /\ InvalCb(Head(mc.ipend)) /\ mc' = [mc EXCEPT !.ipend = Tail(@)]
-         \/ mc.ipend = <<>> /\ Cut /\ InvalOn /\ ~mc.lossnil /\ ~BugNoLossNil /\ InvalCb("nil") /\ mc' = [mc EXCEPT !.lossnil = TRUE]
+         \/ mc.ipend = <<>> /\ Cut /\ InvalOn /\ ~mc.lossnil /\ LossNilOK /\ InvalCb("nil") /\ mc' = [mc EXCEPT !.lossnil = TRUE]
 
 HookEn == mc.hpend # <<>>
 Hook == /\ HookEn
@@ -171,6 +188,14 @@ RelEn == mc.sess = "releasing" /\ mc.relq = <<>> /\ mc.hpend = <<>> /\ mc.rd = L
 Rel == /\ RelEn
        /\ IF Sess(1).closedN < Sess(1).regs THEN HookClosed(1, 0) /\ UNCHANGED mc
           ELSE DedReleased(1) /\ mc' = [mc EXCEPT !.sess = "released"]
+
+\* the connection of the open session is lost: its hook channels get the error and are closed, the invalidation hook gets
+\* one nil, the session is over (its release has nothing left to clean)
+HookLossEn == Dedicated /\ Cut /\ mc.sess \in {"open", "releasing"} /\ mc.hpend = <<>> /\ \A c \in CallsOf(1) : ~Open(c)
+HookLoss == /\ HookLossEn
+            /\ IF Sess(1).closedN < Sess(1).regs THEN HookClosed(1, 1) /\ UNCHANGED mc
+               ELSE IF Sess(1).inval /\ Sess(1).conn # 0 /\ Sess(1).hlossnil = 0 /\ LossNilOK THEN HookInval(1, "nil") /\ UNCHANGED mc
+               ELSE mc' = [mc EXCEPT !.sess = "lost", !.relq = <<>>] /\ UNCHANGED vars
 
 (* ---- the abstract client: results *)
 \* the slot (n-th reply read) of wire command j of call c
@@ -204,7 +229,7 @@ RetC(c) ==
 RetAny == \E c \in DOMAIN calls : RetC(c)
 
 \* does client or server have something to do by itself?
-Internal == ServeEn \/ SendEn \/ RegEn \/ ReadEn \/ InvalEn \/ HookEn \/ RelEn \/ \E c \in DOMAIN calls : CbEn(c) \/ RetEn(c)
+Internal == ServeEn \/ SendEn \/ RegEn \/ ReadEn \/ InvalEn \/ HookEn \/ RelEn \/ HookLossEn \/ \E c \in DOMAIN calls : CbEn(c) \/ RetEn(c)
 EnvMay == ~glob.quiesced /\ (Eager => ~Internal)
 
 -----------------------------------------------------------------------------
@@ -214,26 +239,37 @@ ECall == \E p \in Callers, kind \in Kinds :
            \* a dedicated connection is exclusive: while the session of caller 1 is open nobody else uses it
            /\ (Dedicated /\ p = 1) => mc.sess = "open"
            /\ (Dedicated /\ p # 1) => mc.sess = "released"
+           /\ (kind = "cache" => mc.cache)       \* without the cache DoCache is a plain Do
            /\ LET c == Cid(p, mc.ncalls[p] + 1) IN
-              /\ Call(c, kind, IF Dedicated /\ p = 1 THEN 1 ELSE 0, CmdsOf(c, kind))
+              /\ Call(c, IF kind = "subown" THEN "sub" ELSE kind, IF Dedicated /\ p = 1 THEN 1 ELSE 0, CmdsOf(c, kind))
               /\ mc' = [mc EXCEPT !.ncalls[p] = @ + 1, !.script = Append(@, Sc("call", p, kind)),
-                                  !.pend = IF kind = "sub" THEN @ @@ (c :> <<>>) ELSE @]
+                                  !.pend = IF kind \in {"sub", "subown"} THEN @ @@ (c :> <<>>) ELSE @]
 ECancel == \E c \in DOMAIN calls :
              /\ Open(c) /\ ~calls[c].canc /\ mc.ncancel < MaxCancel
              /\ Cancel(c, FALSE)
              /\ mc' = [mc EXCEPT !.ncancel = @ + 1, !.script = Append(@, Sc("cancel", c \div 10, ""))]
-EPush == \E kind \in PushKinds :
+\* the own channel of the Receive that caller p currently runs ("" : none, or not subscribed on the server)
+OwnChan(p) == LET cs == {c \in CallsOf(p) : IsSub(c) /\ Open(c)} IN
+              IF cs = {} THEN "" ELSE LET c == CHOOSE c \in cs : TRUE IN
+                                    IF calls[c].wire[1].argv[2] \in mc.schans THEN calls[c].wire[1].argv[2] ELSE ""
+EPush == \E kind \in PushKinds, p \in Callers :
            /\ ~Cut /\ mc.npush < MaxPush
-           /\ (kind \in {"message", "unsubscribe"} => (mc.ssub \/ (Dedicated /\ kind = "message")))
+           /\ (kind \notin {"unsubown", "msgown"} => p = CHOOSE q \in Callers : TRUE)     \* only these are about one caller
+           /\ (kind \in {"unsubown", "msgown"} => OwnChan(p) # "")
+           /\ (kind \in {"message", "unsubscribe"} => ("sh" \in mc.schans \/ (Dedicated /\ kind = "message")))
            \* pushes reach a dedicated connection only after the session has used it
            /\ Dedicated => (mc.sess = "open" /\ Sess(1).conn = K)
            /\ LET n == ToString(mc.npush + 1)
                   fr == CASE kind = "invalidate"  -> [t |-> "push", p |-> 0, kind |-> "invalidate", chan |-> "", val |-> "k" \o n]
                           [] kind = "flush"       -> [t |-> "push", p |-> 0, kind |-> "invalidate", chan |-> "", val |-> "nil"]
                           [] kind = "message"     -> [t |-> "push", p |-> 0, kind |-> "message", chan |-> "sh", val |-> "|sh|m" \o n]
+                          [] kind = "unsubown"    -> [t |-> "push", p |-> 0, kind |-> "unsubscribe", chan |-> OwnChan(p), val |-> ":0"]
+                          [] kind = "msgown"      -> [t |-> "push", p |-> 0, kind |-> "message", chan |-> OwnChan(p),
+                                                      val |-> "|" \o OwnChan(p) \o "|m" \o n]
                           [] OTHER                -> [t |-> "push", p |-> 0, kind |-> "unsubscribe", chan |-> "sh", val |-> ":0"]
-              IN mc' = [mc EXCEPT !.npush = @ + 1, !.todo = Append(@, fr), !.script = Append(@, Sc("push", 0, kind)),
-                                  !.ssub = IF kind = "unsubscribe" THEN FALSE ELSE @]
+              IN mc' = [mc EXCEPT !.npush = @ + 1, !.todo = Append(@, fr),
+                                  !.script = Append(@, Sc("push", IF kind \in {"unsubown", "msgown"} THEN p ELSE 0, kind)),
+                                  !.schans = IF kind \in {"unsubscribe", "unsubown"} THEN @ \ {fr.chan} ELSE @]
            /\ UNCHANGED vars
 ERelease == /\ UseHold /\ conns[K].rel < Len(conns[K].out)
             /\ Release(K, 1)
@@ -253,12 +289,13 @@ Boot == /\ mc.boot < 3
         /\ CASE mc.boot = 0 -> Start(InvalOn)
              [] mc.boot = 1 -> SConn(K)
              [] OTHER -> IF UseHold THEN Hold(K, TRUE) ELSE UNCHANGED vars
-        /\ mc' = [mc EXCEPT !.boot = @ + 1]
+        /\ mc' = [mc EXCEPT !.boot = @ + 1,
+                            !.script = IF mc.boot = 0 /\ ~mc.cache THEN Append(@, Sc("opt", 0, "nocache")) ELSE @]
 EClose == /\ glob.quiesced /\ ~glob.closing /\ CloseBegin /\ UNCHANGED mc
 \* the driver ends what it started (every Receive still listening gets cancelled by an ECancel or ended by an
 \* unsubscribe before), releases everything, waits until nothing moves and declares the run quiescent
-EQuiesce == /\ ~glob.quiesced /\ ~Internal /\ mc.sess \in {"none", "released"}
-            /\ \A p \in Callers : mc.ncalls[p] > 0
+EQuiesce == /\ ~glob.quiesced /\ ~Internal /\ mc.sess \in {"none", "released", "lost"}
+            /\ Cut \/ \A p \in Callers : mc.ncalls[p] > 0
             /\ conns[K].rel < 0 \/ conns[K].rel = Len(conns[K].out) \/ Cut
             /\ \A c \in DOMAIN calls : (IsSub(c) /\ Open(c)) =>
                   SubConn(c) = K /\ \E u \in (calls[c].must + 1)..Len(conns[K].out) : EndsSub(c, K, u)
@@ -268,7 +305,7 @@ EQuiesce == /\ ~glob.quiesced /\ ~Internal /\ mc.sess \in {"none", "released"}
 \* the fake server answers under its dispatcher mutex: whatever it owes is sent before anything else happens
 SNext == \/ Boot
          \/ Booted /\ Serve
-         \/ Booted /\ ~ServeEn /\ (\/ Send \/ Reg \/ Read \/ Cb \/ Inval \/ Hook \/ Rel \/ RetAny \/ EQuiesce \/ EClose
+         \/ Booted /\ ~ServeEn /\ (\/ Send \/ Reg \/ Read \/ Cb \/ Inval \/ Hook \/ Rel \/ HookLoss \/ RetAny \/ EQuiesce \/ EClose
                                    \/ ~glob.quiesced /\ ECancel          \* a context may end at any moment
                                    \/ EnvMay /\ (ECall \/ EPush \/ ERelease \/ ECut \/ ESessOpen \/ ESessRelease))
 SSpec == SInit /\ [][SNext]_svars
